@@ -1,5 +1,5 @@
 (* Properties/C02.v — pinned statements for C02 (a failed sub-message leaves no trace; caught only if reply_on says so). *)
-From Verif Require Import Base OMap Text Proto Bank Exec ExecFacts ExecFacts2 ChkExec.
+From Verif Require Import Base OMap Text Proto Bank Exec ExecFacts ExecFacts2 ChkExec ChkX ExecOracle ExecOracleS ExecOracleH.
 
 (* Complete characterisation of the handling of one sub-message, for every tree, state and mode.  In the
    failure branch the reply handler (and with it everything that runs later) starts from [s] ITSELF — the
@@ -87,3 +87,30 @@ Example caught_failure_exists :
   | _ => False
   end.
 Proof. vm_compute. split; reflexivity. Qed.
+
+(* ---------- what the correspondence check relies on ---------- *)
+(* The run-time oracle p_c02 (ChkX.v, clauses 5-7: whatever ran inside a sub-message answered with an Err reply, whatever
+   a failed top-level call ran, and every program that failed by itself has left no marker) accepts the model's own
+   run of EVERY well-formed scenario: no false alarm, and "agrees with the model" implies "satisfies the oracle".
+   Premise [wf_scenario] (ExecOracle.v) is what the generator guarantees (harness/exec_common/src/gen.rs): in every
+   program of every call — sub-messages and reply handlers at every depth — the first action writes the marker
+   "m<node>" and no other action writes or removes the marker of any node; the markers of all the nodes of the
+   scenario are pairwise different.  [model_steps] builds the step records from the model's own run (only the block and
+   the call of each input step are used).
+   Premise [helpers_ok] (ExecOracleH.v): the response parse of the two Executor helpers, which happens after the commit,
+   cannot fail (see Properties/C01.v); needed by clause 6 only. *)
+Theorem C02_model_ok ce steps : wf_scenario steps -> helpers_ok ce steps ->
+  c02 ce (model_steps ce steps empty_chain) = Agree.
+Proof. exact (c02_model_ok_h ce steps). Qed.
+Print Assumptions C02_model_ok.
+
+Example C02_model_ok_applies :
+  wf_scenario ex_scenario /\ helpers_ok ex_ce ex_scenario /\ c02 ex_ce (model_steps ex_ce ex_scenario empty_chain) = Agree.
+Proof. exact (conj ex_scenario_wf (conj ex_scenario_helpers_ok (proj2 ex_scenario_checks_agree))). Qed.
+
+(* conversely, an Agree verdict of the check means: the oracle accepted every step of what the IMPLEMENTATION did, and
+   trace, outcome and state agreed with the model at every step *)
+Theorem C02_agree_sound ce steps : c02 ce steps = Agree ->
+  oracle_steps p_c02 steps 0 = None /\ corr ce steps empty_chain 0 = None.
+Proof. exact (check_with_agree_sound p_c02 ce steps). Qed.
+Print Assumptions C02_agree_sound.
